@@ -18,8 +18,14 @@ class C06(SessionCheck):
         spec = common.gen_instance(rng, allow_empty_jobs=not filtered, zero=False if filtered else None,
                                    big=rng.random() < 0.2)
         fs = [rng.randrange(4) for _ in range(rng.randint(1, 3))] if filtered else []
-        events, stats = gen.gen_session(rng, spec, p_invalid=0.05, p_query=0.35, p_reset=0.04, p_snapshot=1.0,
-                                        p_sub=0.45, max_events=60)
+        # a third of the sessions are made of several short episodes (the clock restarts at every reset: what
+        # was computed in an earlier episode must not be served in a later one)
+        episodic = rng.random() < 0.33
+        events, stats = gen.gen_session(rng, spec, p_invalid=0.05, p_query=0.35,
+                                        p_reset=0.18 if episodic else 0.04, p_snapshot=1.0,
+                                        p_sub=0.45, max_events=80 if episodic else 60)
+        if episodic:
+            stats["episodic"] = 1
         out = []
         all_ops = [[j, p] for j, job in enumerate(spec) for p in range(len(job))]
         for ev in events:
